@@ -88,7 +88,7 @@ CLAIMED = {
   "DESIGN.md §3 C06"),
  "C20": ("model_checking",
   "TLA+ spec Trim.tla (package space: schema declarations x data declarations x file split; protocol P -trim-> P1 -trim-> P2) enumerated by TLC; every package trimmed twice by the cue binary built from the working tree and all three evaluated",
-  "Trim.tla enumerates packages made of 11 schema declarations (a definition, a pattern with defaults, a comprehension, an embedded defaulted disjunction, a computed field, defaults, disjunctions with two defaults, a list schema; all of them or all but selected ones) and up to 2 (thorough 3) of 22 data declarations that repeat, refine or contradict what the schemas imply, in one file or split over two. Each package is evaluated, trimmed with `cue trim`, evaluated again - per top-level field the JSON with defaults resolved (key order ignored), the printed final form when incomplete, or ERROR must be identical - and trimmed again, which must leave the files byte-identical. An abort of the trimmer's own self-check counts as a violation.",
+  "Trim.tla enumerates packages made of 14 schema declarations (a comprehension writing back into the struct it iterates over, a definition, a pattern with defaults, a comprehension, an embedded defaulted disjunction, a computed field, defaults, disjunctions with two defaults, a list schema; all of them or all but selected ones) and up to 2 (thorough 3) of 22 data declarations that repeat, refine or contradict what the schemas imply, in one file or split over two. Each package is evaluated, trimmed with `cue trim`, evaluated again - per top-level field the JSON with defaults resolved (key order ignored), the printed final form when incomplete, or ERROR must be identical - and trimmed again, which must leave the files byte-identical. An abort of the trimmer's own self-check counts as a violation.",
   "trusted: TLC (enumeration only: the verdict is metamorphic - the package's own evaluation before trimming is the oracle), the projection; packages that are in error before trimming may be refused. The 'removed only if implied' clause is covered through the unchanged evaluation; no independent Redundant oracle was built.",
   "DESIGN.md §3 C20"),
  "C07": ("exploration",
